@@ -2,13 +2,14 @@ INIT SimInit
 NEXT SimNext
 CONSTANTS
   N = 3
-  MaxConn = 7
+  MaxConn = 10
   MaxDialFail = 2
   MaxKill = 3
   FixSessErr = FALSE
   FixRet = FALSE
   FixAdd = FALSE
-  Depth = 33
+  Depth = 36
   Loop = FALSE
   AddGate = TRUE
+  MaxHeal = 3
 CHECK_DEADLOCK FALSE
